@@ -57,21 +57,37 @@ Proof.
   - intros x q. apply sess_mentions_push.
 Qed.
 
-(* an update of session u that adds at most the path q to what u holds *)
+Lemma in_mentions : forall sv x p, In x (sv_sessions sv) -> In p (sess_mentions x) -> In p (mentions sv (s_id x)).
+Proof. intros sv x p Hx Hp. unfold mentions. apply in_flat_map. exists x. split; [exact Hx|]. now rewrite N.eqb_refl. Qed.
+
+Lemma in_mentions_id : forall sv x u p, In x (sv_sessions sv) -> s_id x = u -> In p (sess_mentions x) -> In p (mentions sv u).
+Proof. intros sv x u p Hx Hu Hp. subst u. now apply in_mentions. Qed.
+
+(* an update of the sessions with id u after which they hold at most what was held under that id before, plus the path q *)
 Lemma only_about_upd : forall dir t sv u (f : session -> session) q,
   (forall x, s_id (f x) = s_id x) ->
-  (forall x p, In p (sess_mentions (f x)) -> In p (sess_mentions x) \/ p = q) ->
+  (forall x p, In x (sv_sessions sv) -> s_id x = u -> In p (sess_mentions (f x)) -> In p (mentions sv u) \/ p = q) ->
   (u = t -> is_prefix dir q = true) ->
   only_about dir t sv (upd_session sv u f).
 Proof.
-  intros dir t sv u f q Hid Hf Hq p H. unfold mentions, upd_session in *. cbn [sv_sessions] in H.
+  intros dir t sv u f q Hid Hf Hq p H. unfold mentions at 1, upd_session in H. cbn [sv_sessions] in H.
   apply in_flat_map in H as [y [Hy Hp]]. apply in_map_iff in Hy as [x [Hx Hin]]. subst y.
   destruct (N.eqb (s_id x) u) eqn:Eu.
   - rewrite Hid in Hp. destruct (N.eqb (s_id x) t) eqn:Et; [|destruct Hp].
-    destruct (Hf x p Hp) as [H|H].
-    + left. apply in_flat_map. exists x. split; [exact Hin|]. now rewrite Et.
-    + right. subst p. apply Hq. apply N.eqb_eq in Eu. apply N.eqb_eq in Et. congruence.
-  - left. apply in_flat_map. exists x. now split.
+    apply N.eqb_eq in Eu. apply N.eqb_eq in Et.
+    destruct (Hf x p Hin Eu Hp) as [H|H]; [left; congruence|]. right. subst p. apply Hq. congruence.
+  - left. unfold mentions. apply in_flat_map. exists x. now split.
+Qed.
+
+(* an update of somebody else *)
+Lemma only_about_upd_other : forall dir t sv u (f : session -> session),
+  (forall x, s_id (f x) = s_id x) -> u <> t -> only_about dir t sv (upd_session sv u f).
+Proof.
+  intros dir t sv u f Hid Hne p H. left. unfold mentions in *. unfold upd_session in H. cbn [sv_sessions] in H.
+  apply in_flat_map in H as [y [Hy Hp]]. apply in_map_iff in Hy as [x [Hx Hin]]. subst y.
+  apply in_flat_map. exists x. split; [exact Hin|].
+  destruct (N.eqb (s_id x) u) eqn:Eu; [|exact Hp]. rewrite Hid in Hp.
+  destruct (N.eqb (s_id x) t) eqn:Et; [|exact Hp]. apply N.eqb_eq in Eu. apply N.eqb_eq in Et. congruence.
 Qed.
 
 Lemma sess_mentions_set_pending_removed : forall x d q p, (forall r, In r (di_paths d) -> In r (sess_mentions x)) ->
@@ -106,6 +122,280 @@ Qed.
 Lemma pending_or_new_paths : forall (x : session) r, In r (di_paths (pending_or_new x)) -> In r (sess_mentions x).
 Proof.
   intros x r H. unfold pending_or_new in H. unfold sess_mentions. destruct (s_pending x); [apply in_or_app; now right|destruct H].
+Qed.
+
+Lemma only_about_set_dirty : forall dir t sv b, only_about dir t sv (set_dirty sv b).
+Proof. intros dir t sv b p H. now left. Qed.
+
+Lemma only_about_set_tree : forall dir t sv tr, only_about dir t sv (set_tree sv tr).
+Proof. intros dir t sv tr p H. now left. Qed.
+
+Lemma find_session_in_list : forall l u x, find_session l u = Some x -> In x l /\ s_id x = u.
+Proof.
+  induction l as [|y l IH]; intros u x H; cbn in H; [discriminate|]. destruct (N.eqb (s_id y) u) eqn:E.
+  - inversion H; subst. split; [now left|now apply N.eqb_eq].
+  - apply IH in H as [H1 H2]. split; [now right|exact H2].
+Qed.
+
+Lemma di_paths_add_removed : forall d q r, In r (di_paths (di_add_removed d q)) -> In r (di_paths d) \/ r = q.
+Proof.
+  intros d q r H. unfold di_paths, di_add_removed in *. cbn [di_removed di_sets] in H. rewrite <- app_assoc in H.
+  apply in_app_or in H as [H|H]; [left; apply in_or_app; now left|]. cbn in H. destruct H as [H|H]; [now right|]. left. apply in_or_app. now right.
+Qed.
+
+Lemma di_paths_add_set : forall d q v r, In r (di_paths (di_add_set d q v)) -> In r (di_paths d) \/ r = q.
+Proof.
+  intros d q v r H. unfold di_paths, di_add_set in *. cbn [di_removed di_sets] in H.
+  apply in_app_or in H as [H|H]; [left; apply in_or_app; now left|].
+  destruct (sets_add_paths _ _ _ _ H) as [H1|H1]; [left; apply in_or_app; now right|now right].
+Qed.
+
+(* replacing the pending Message of the sessions with id u by d', all of whose paths come from su's pending Message or are q *)
+Lemma upd_pending_agg : forall sv u su d' q x p0, In su (sv_sessions sv) -> s_id su = u -> In x (sv_sessions sv) -> s_id x = u ->
+  (forall r, In r (di_paths d') -> In r (di_paths (pending_or_new su)) \/ r = q) ->
+  In p0 (sess_mentions (set_pending x (Some d'))) -> In p0 (mentions sv u) \/ p0 = q.
+Proof.
+  intros sv u su d' q x p0 Hsu Hid Hx Hxu Hd Hp. unfold sess_mentions in Hp. cbn [s_out s_pending set_pending] in Hp.
+  apply in_app_or in Hp as [Hp|Hp].
+  - left. apply (in_mentions_id _ x); [exact Hx|exact Hxu|]. unfold sess_mentions. apply in_or_app. now left.
+  - destruct (Hd p0 Hp) as [H|H]; [|now right]. left. apply (in_mentions_id _ su); [exact Hsu|exact Hid|]. now apply pending_or_new_paths.
+Qed.
+
+(* NodeChangedAux for the node q and session u: u learns about q, nobody learns anything else *)
+Lemma node_changed_aux_about : forall dir t sv u q d r, (u = t -> is_prefix dir q = true) ->
+  only_about dir t sv (node_changed_aux sv u q d r).
+Proof.
+  intros dir t sv u q d r Hq. unfold node_changed_aux.
+  destruct (get_session sv u) as [su|] eqn:Eu; [|apply only_about_refl].
+  destruct (find_session_in_list _ _ _ Eu) as [Hin Hid].
+  match goal with |- only_about dir t sv (match get_session ?X u with _ => _ end) => set (sv1 := X) end.
+  assert (H1 : only_about dir t sv sv1).
+  { subst sv1. destruct r; [destruct (di_has_set (pending_or_new su) q)|].
+    - (* flush, then a fresh pending Message holding only q *)
+      eapply only_about_trans; [|apply only_about_set_dirty].
+      eapply only_about_trans; [|apply (only_about_upd dir t _ u _ q); [reflexivity| |exact Hq]].
+      + eapply only_about_trans; [|apply only_about_push_all]. eapply only_about_trans; [|apply only_about_set_dirty].
+        apply (only_about_upd dir t sv u _ q); [reflexivity| |exact Hq].
+        intros x p0 Hx Hxu Hp. apply (upd_pending_agg sv u su (pending_or_new su) q x p0 Hin Hid Hx Hxu); [|exact Hp]. intros r0 Hr0. now left.
+      + intros x p0 Hx Hxu Hp. unfold sess_mentions in Hp. cbn [s_out s_pending set_pending] in Hp. apply in_app_or in Hp as [Hp|Hp].
+        * left. apply (in_mentions_id _ x); [exact Hx|exact Hxu|]. unfold sess_mentions. apply in_or_app. now left.
+        * cbn in Hp. destruct Hp as [Hp|[]]. now right.
+    - eapply only_about_trans; [|apply only_about_set_dirty]. apply (only_about_upd dir t sv u _ q); [reflexivity| |exact Hq].
+      intros x p0 Hx Hxu Hp. apply (upd_pending_agg sv u su (di_add_removed (pending_or_new su) q) q x p0 Hin Hid Hx Hxu); [|exact Hp]. apply di_paths_add_removed.
+    - eapply only_about_trans; [|apply only_about_set_dirty]. apply (only_about_upd dir t sv u _ q); [reflexivity| |exact Hq].
+      intros x p0 Hx Hxu Hp. apply (upd_pending_agg sv u su (di_add_set (pending_or_new su) q d) q x p0 Hin Hid Hx Hxu); [|exact Hp]. apply di_paths_add_set. }
+  destruct (get_session sv1 u) as [ss1|]; [|exact H1].
+  destruct (s_pending ss1); [|exact H1]. destruct (N.leb _ _); [|exact H1].
+  eapply only_about_trans; [exact H1|apply only_about_push_all].
+Qed.
+
+Lemma node_changed_about : forall dir t sv u q d old r, (u = t -> is_prefix dir q = true) ->
+  only_about dir t sv (node_changed sv u q d old r).
+Proof.
+  intros dir t sv u q d old r Hq. unfold node_changed. destruct (get_session sv u); [|apply only_about_refl].
+  destruct (N.ltb _ _); [|now apply node_changed_aux_about].
+  destruct r.
+  - destruct (matches_node _ _ _ _); [now apply node_changed_aux_about|apply only_about_refl].
+  - destruct old; repeat (match goal with |- context [if ?b then _ else _] => destruct b end);
+      try (now apply node_changed_aux_about); apply only_about_refl.
+Qed.
+
+(* NotifySubscribersThatNodeChanged for a node at or below dir *)
+Lemma notify_changed_about : forall dir t sv by_ q d old r, is_prefix dir q = true ->
+  only_about dir t sv (notify_changed sv by_ q d old r).
+Proof.
+  intros dir t sv by_ q d old r Hq. unfold notify_changed. destruct (find_node _ _) as [n|]; [|apply only_about_refl].
+  generalize (n_subs n). intros l.
+  assert (G : forall sv', only_about dir t sv sv' ->
+              only_about dir t sv (fold_left (fun sv'0 (kc : sid * N) => if N.eqb (fst kc) by_ then sv'0 else node_changed sv'0 (fst kc) q d old r) l sv')).
+  { induction l as [|kc l IH]; intros sv' H'; cbn [fold_left]; [exact H'|]. apply IH.
+    destruct (N.eqb _ _); [exact H'|]. eapply only_about_trans; [exact H'|]. apply node_changed_about. intros _. exact Hq. }
+  apply G, only_about_refl.
+Qed.
+
+(* ------------------------------------------------------------------ the handlers *)
+
+Lemma fold_about : forall (B : Type) (f : server -> B -> server) dir t l,
+  (forall sv q, In q l -> only_about dir t sv (f sv q)) -> forall sv, only_about dir t sv (fold_left f l sv).
+Proof.
+  intros B f dir t l. induction l as [|q l IH]; intros H sv; cbn; [apply only_about_refl|].
+  eapply only_about_trans; [apply H; now left|]. apply IH. intros sv' q' Hq'. apply H. now right.
+Qed.
+
+Lemma set_data_loop_about : forall dir t cl sv by_ pp d dc dw q,
+  is_prefix dir pp = true -> only_about dir t sv (set_data_loop sv by_ pp cl d dc dw q).
+Proof.
+  intros dir t cl. induction cl as [|k rest IH]; intros sv by_ pp d dc dw q Hpp; cbn [set_data_loop]; [apply only_about_refl|].
+  assert (Hp : is_prefix dir (pp ++ [k]) = true) by now apply is_prefix_snoc.
+  destruct (find_node (sv_tree sv) (pp ++ [k])) as [n|].
+  - destruct rest as [|k2 rest']; [|now apply IH]. destruct dw; [apply only_about_refl|].
+    destruct q; [apply only_about_set_tree|]. eapply only_about_trans; [apply only_about_set_tree|now apply notify_changed_about].
+  - destruct dc; [apply only_about_refl|]. destruct (Nat.leb _ _); [apply only_about_refl|].
+    match goal with |- only_about dir t sv (if ?l then ?a else _) => assert (Ha : only_about dir t sv a) end.
+    { destruct q; [apply only_about_set_tree|]. eapply only_about_trans; [apply only_about_set_tree|now apply notify_changed_about]. }
+    destruct rest as [|k2 rest']; [exact Ha|]. eapply only_about_trans; [exact Ha|now apply IH].
+Qed.
+
+Lemma remove_subtree_about : forall dir t sv by_ p notify, is_prefix dir p = true -> only_about dir t sv (remove_subtree sv by_ p notify).
+Proof.
+  intros dir t sv by_ p notify Hp. unfold remove_subtree. apply fold_about. intros sv' q Hq.
+  apply removal_order_prefix in Hq. assert (Hdq : is_prefix dir q = true) by (eapply is_prefix_trans; eassumption).
+  destruct (find_node _ _); [|apply only_about_refl].
+  eapply only_about_trans; [|apply only_about_set_tree]. destruct notify; [now apply notify_changed_about|apply only_about_refl].
+Qed.
+
+Lemma do_remove_data_about : forall t sv ss keys quiet, only_about (session_dir ss) t sv (do_remove_data fx sv ss keys quiet).
+Proof.
+  intros t sv ss keys quiet. unfold do_remove_data. apply fold_about. intros sv' q Hq. destruct (has_node _ _); [|apply only_about_refl].
+  apply remove_subtree_about.
+  pose proof (remove_cb_collects_below (sv_tree sv) (m_of_list keys) (session_dir ss) true (fx_guard fx)) as H.
+  rewrite Forall_forall in H. now apply H.
+Qed.
+
+(* what goes to the sender itself does not matter to anybody else *)
+Lemma getdata_cb_about : forall dir t sv0 s acc n, s <> t ->
+  only_about dir t sv0 (snd acc) -> only_about dir t sv0 (snd (fst (getdata_cb s acc n))).
+Proof.
+  intros dir t sv0 s [rp sv] n Hne Ha. cbn [snd] in Ha. unfold getdata_cb.
+  destruct (get_session sv s); [|exact Ha]. destruct (own_node _ _); [exact Ha|]. destruct (N.leb _ _); cbn [fst snd]; [|exact Ha].
+  eapply only_about_trans; [exact Ha|]. apply only_about_upd_other; [reflexivity|exact Hne].
+Qed.
+
+Lemma do_get_data_about : forall dir t sv s keys, s <> t -> only_about dir t sv (do_get_data fx sv s keys).
+Proof.
+  intros dir t sv s keys Hne. unfold do_get_data.
+  match goal with |- context [do_traversal ?cb ?tr ?m ?r ?u ?g ?a] =>
+    pose proof (do_traversal_inv _ cb tr m r u g (fun acc => only_about dir t sv (snd acc))
+                  (fun acc n Ha _ _ => getdata_cb_about dir t sv s acc n Hne Ha) a (only_about_refl dir t sv)) as H;
+    destruct (do_traversal cb tr m r u g a) as [reply sv1] end.
+  cbn [snd] in H. destruct reply; [|exact H]. eapply only_about_trans; [exact H|]. apply only_about_upd_other; [reflexivity|exact Hne].
+Qed.
+
+Lemma cqf_traversal_about : forall dir t sv s oldf newf m, s <> t ->
+  only_about dir t sv (do_traversal (continue_cb (cqf_cb fx s oldf newf)) (sv_tree sv) m [] false (fx_guard fx) sv).
+Proof.
+  intros dir t sv s oldf newf m Hne.
+  apply (do_traversal_inv _ _ (sv_tree sv) m [] false (fx_guard fx) (fun acc => only_about dir t sv acc)); [|apply only_about_refl].
+  intros acc n Ha _ _. unfold continue_cb. cbn [fst]. eapply only_about_trans; [exact Ha|].
+  unfold cqf_cb. destruct (Bool.eqb _ _); [apply only_about_refl|]. destruct (get_session acc s); [|apply only_about_refl].
+  destruct (_ && _); [apply only_about_refl|]. apply node_changed_aux_about. intros E. congruence.
+Qed.
+
+Lemma subscribe_one_about : forall dir t sv s sf, s <> t -> only_about dir t sv (subscribe_one fx sv s sf).
+Proof.
+  intros dir t sv s sf Hne. unfold subscribe_one. destruct (get_session sv s); [|apply only_about_refl].
+  destruct (fix_path (fst sf)); [apply only_about_refl|]. destruct (m_get _ _) as [e|].
+  - eapply only_about_trans; [|apply only_about_upd_other; [reflexivity|exact Hne]].
+    destruct (snd sf), (e_flt e); try apply only_about_refl; now apply cqf_traversal_about.
+  - eapply only_about_trans; [|apply only_about_set_tree]. apply only_about_upd_other; [reflexivity|exact Hne].
+Qed.
+
+Lemma unsubscribe_one_about : forall dir t sv s sp, s <> t -> only_about dir t sv (unsubscribe_one fx sv s sp).
+Proof.
+  intros dir t sv s sp Hne. unfold unsubscribe_one. destruct (get_session sv s); [|apply only_about_refl].
+  destruct (m_remove _ _); [|apply only_about_refl].
+  eapply only_about_trans; [|apply only_about_set_tree]. apply only_about_upd_other; [reflexivity|exact Hne].
+Qed.
+
+Theorem handle_about : forall c nest sv s ss t, get_session sv s = Some ss -> s <> t ->
+  only_about (session_dir ss) t sv (handle fx nest sv s c).
+Proof.
+  induction c as [flags items|q keys|q subs|subs|n| |keys|l IHl] using cmd_ind'; intros nest sv s ss t Hs Hne;
+    pose proof (get_session_id sv s ss Hs) as Hid.
+  - destruct nest; cbn [handle]; rewrite Hs;
+      (assert (G : forall its sv', frame s (session_dir ss) sv sv' -> only_about (session_dir ss) t sv sv' ->
+                only_about (session_dir ss) t sv
+                  (fold_left (fun sv'0 (it : list name * payload) =>
+                                match get_session sv'0 s with
+                                | Some ss' => match fst it with [] => sv'0 | _ :: _ => set_data_node sv'0 ss' (fst it) (snd it) flags end
+                                | None => sv'0 end) its sv'));
+       [induction its as [|it its IHi]; intros sv' F A; cbn [fold_left]; [exact A|];
+        destruct (get_session sv' s) as [ss'|] eqn:Es'; [|now apply IHi];
+        destruct (fst it) as [|k rest]; [now apply IHi|];
+        pose proof F as [_ [_ Fi]]; destruct (idents_session_dir sv sv' s ss ss' Fi Hs Es') as [_ Hd];
+        apply IHi;
+        [eapply frame_trans; [exact F|]; unfold set_data_node; rewrite <- Hd; apply set_data_loop_frame; apply is_prefix_refl
+        |eapply only_about_trans; [exact A|]; unfold set_data_node; rewrite Hd; apply set_data_loop_about; apply is_prefix_refl]
+       | apply G; [apply frame_refl|apply only_about_refl]]).
+  - destruct nest; cbn [handle]; rewrite Hs; apply do_remove_data_about.
+  - assert (G : forall l sv', only_about (session_dir ss) t sv sv' ->
+              only_about (session_dir ss) t sv (fold_left (fun sv'0 sf => subscribe_one fx sv'0 s sf) l sv')).
+    { induction l as [|sf l IHl]; intros sv' A; cbn [fold_left]; [exact A|]. apply IHl. eapply only_about_trans; [exact A|now apply subscribe_one_about]. }
+    destruct nest; cbn [handle]; rewrite Hs; (destruct q; [apply G, only_about_refl|]); (destruct subs as [|sf subs']; [apply G, only_about_refl|]);
+      (eapply only_about_trans; [apply (G (sf :: subs')), only_about_refl|]);
+      (destruct (fx_push fx); [eapply only_about_trans; [apply only_about_push_all|now apply do_get_data_about]|now apply do_get_data_about]).
+  - assert (G : forall l sv', only_about (session_dir ss) t sv sv' ->
+              only_about (session_dir ss) t sv (fold_left (fun sv'0 sp => unsubscribe_one fx sv'0 s sp) l sv')).
+    { induction l as [|sf l IHl]; intros sv' A; cbn [fold_left]; [exact A|]. apply IHl. eapply only_about_trans; [exact A|now apply unsubscribe_one_about]. }
+    destruct nest; cbn [handle]; rewrite Hs; apply G, only_about_refl.
+  - destruct nest; cbn [handle]; rewrite Hs; (apply only_about_upd_other; [reflexivity|exact Hne]).
+  - destruct nest; cbn [handle]; rewrite Hs; (apply only_about_upd_other; [reflexivity|exact Hne]).
+  - destruct nest; cbn [handle]; rewrite Hs; now apply do_get_data_about.
+  - assert (G : forall nest' sv', frame s (session_dir ss) sv sv' -> only_about (session_dir ss) t sv sv' ->
+              only_about (session_dir ss) t sv
+                ((fix go (l0 : list cmd) (sv0 : server) : server :=
+                    match l0 with [] => sv0 | c' :: r => go r (push_all (handle fx (S nest') sv0 s c')) end) l sv')).
+    { intros nest'. induction IHl as [|c l Hc _ IHl']; intros sv' F A; [exact A|].
+      destruct (get_session sv' s) as [ss'|] eqn:Es'.
+      - pose proof F as [_ [_ Fi]]. destruct (idents_session_dir sv sv' s ss ss' Fi Hs Es') as [_ Hd]. apply IHl'.
+        + eapply frame_trans; [exact F|]. eapply frame_trans; [rewrite <- Hd; now apply handle_frame|apply same_state_frame, push_all_same].
+        + eapply only_about_trans; [exact A|]. eapply only_about_trans; [|apply only_about_push_all]. rewrite <- Hd. now apply Hc.
+      - assert (Hn : handle fx (S nest') sv' s c = sv') by (destruct c; cbn; now rewrite Es'). apply IHl'; rewrite Hn.
+        + eapply frame_trans; [exact F|apply same_state_frame, push_all_same].
+        + eapply only_about_trans; [exact A|apply only_about_push_all]. }
+    destruct nest as [|nest]; cbn [handle]; rewrite Hs; (destruct (Nat.ltb _ _); [apply G; [apply frame_refl|apply only_about_refl]|apply only_about_refl]).
+Qed.
+
+(* ------------------------------------------------------------------ the dispatcher *)
+
+Lemma dispatch_sv_same : forall xs ss what keys sess, xs_sv (dispatch fx xs ss what keys sess) = xs_sv xs.
+Proof.
+  intros. unfold dispatch, bounce, log_to, with_ducks.
+  repeat (match goal with |- context [if ?b then _ else _] => destruct b end); try reflexivity; destruct keys; reflexivity.
+Qed.
+
+Theorem xhandle_about : forall c nest xs s ss t, get_session (xs_sv xs) s = Some ss -> s <> t ->
+  only_about (session_dir ss) t (xs_sv xs) (xs_sv (xhandle fx nest xs s c)).
+Proof.
+  induction c as [b|f i|q k|w k|b| |w k se|l IHl] using xcmd_ind'; intros nest xs s ss t Hs Hne.
+  - destruct nest; cbn [xhandle]; rewrite Hs; cbn [xs_sv with_sv]; now apply handle_about.
+  - destruct nest; cbn [xhandle]; rewrite Hs; cbn [xs_sv with_sv]; now apply handle_about.
+  - destruct nest; cbn [xhandle]; rewrite Hs; cbn [xs_sv with_sv]; now apply handle_about.
+  - destruct nest; cbn [xhandle]; rewrite Hs; rewrite dispatch_sv_same; apply only_about_refl.
+  - destruct nest; cbn [xhandle]; rewrite Hs; apply only_about_refl.
+  - destruct nest; cbn [xhandle]; rewrite Hs; apply only_about_refl.
+  - destruct nest; cbn [xhandle]; rewrite Hs; rewrite dispatch_sv_same; apply only_about_refl.
+  - assert (G : forall nest' xs', xframe s (session_dir ss) xs xs' -> only_about (session_dir ss) t (xs_sv xs) (xs_sv xs') ->
+              only_about (session_dir ss) t (xs_sv xs)
+                (xs_sv ((fix go (l0 : list xcmd) (xs0 : xserver) : xserver :=
+                           match l0 with
+                           | [] => xs0
+                           | c' :: r => go r (let xs1 := xhandle fx (S nest') xs0 s c' in with_sv xs1 (push_all (xs_sv xs1)))
+                           end) l xs'))).
+    { intros nest'. induction IHl as [|c l Hc _ IHl']; intros xs' F A; [exact A|].
+      destruct (get_session (xs_sv xs') s) as [ss'|] eqn:Es'.
+      - pose proof F as [[_ [_ Fi]] _]. destruct (idents_session_dir _ _ s ss ss' Fi Hs Es') as [_ Hd]. apply IHl'.
+        + eapply xframe_trans; [exact F|]. eapply xframe_trans; [rewrite <- Hd; now apply xhandle_xframe|].
+          apply xframe_with_sv, same_state_frame, push_all_same.
+        + eapply only_about_trans; [exact A|]. cbn [xs_sv with_sv]. eapply only_about_trans; [|apply only_about_push_all].
+          rewrite <- Hd. now apply Hc.
+      - assert (Hn : xhandle fx (S nest') xs' s c = xs') by (destruct c; cbn; now rewrite Es'). apply IHl'; rewrite Hn.
+        + eapply xframe_trans; [exact F|]. apply xframe_with_sv, same_state_frame, push_all_same.
+        + eapply only_about_trans; [exact A|]. cbn [xs_sv with_sv]. apply only_about_push_all. }
+    destruct nest as [|nest]; cbn [xhandle]; rewrite Hs; (destruct (Nat.ltb _ _); [apply G; [apply xframe_refl|apply only_about_refl]|apply only_about_refl]).
+Qed.
+
+(* NO SPOOFED NEWS.  After a whole turn of the server for a command of an unprivileged session s, whatever another session t
+   holds in PR_RESULT_DATAITEMS Messages (delivered or pending) either was there before or is about a node at or below s's
+   own directory: s cannot make the server announce, change or retract a node of anybody else in anybody's eyes. *)
+Theorem quiet_step : forall xs s c ss t,
+  get_session (xs_sv xs) s = Some ss -> s <> t -> unprivileged xs s -> xs_ducks xs = [] ->
+  only_about (session_dir ss) t (xs_sv xs) (xs_sv (xstep fx xs (XCmd s c))).
+Proof.
+  intros xs s c ss t Hs Hne U Hd. unfold xstep. rewrite Hs. cbv zeta.
+  pose proof (xhandle_xframe fx c 0 xs s ss Hs) as [_ [_ UD]]. destruct (UD U) as [_ D'].
+  rewrite clear_ducks_nil by (cbn [xs_ducks with_sv]; congruence). cbn [xs_sv with_sv].
+  eapply only_about_trans; [|apply only_about_push_all]. now apply xhandle_about.
 Qed.
 
 End Quiet.
